@@ -82,6 +82,12 @@ def ecdsaVerifySec (E : Embit.EcOps) (pub msg sig : Bytes) : Bool :=
 def schnorrVerifyX (E : Embit.EcOps) (H : HashOps) (xonly msg sig : Bytes) : Bool :=
   PySecp.verifySchnorr E H xonly sig msg == some true
 
+/-- the key predicates of `PSBT.parse` over the key model of `opsOf` (`validXpub` plays no role in the theorems) -/
+def keyOpsOf (E : Embit.EcOps) (validXpub : Bytes → Bool) : KeyOps where
+  validSec := validSecKey E
+  validX := fun x => (Embit.Keys.PublicKey.fromXonly (toKeys E) x).isSome
+  validXpub := validXpub
+
 /-- ECDSA verification as the standards describe it: strict SEC decoding of the key (`Spec.KeyEnc.secDecode`), strict
     (BIP66, in range, low-S) decoding of the signature, the SEC 1 §4.1.4 equation on the message value
     (= `ecdsaVerifySec`: Props/C02Y `ecdsa_verifier_is_sec1`) -/
